@@ -331,3 +331,7 @@ func VerifC17Rejected(pr []ConfigurationProblem) bool {
 // AddSecret puts a Secret into the real LocalSecretStore (what syncSecret does for a
 // referenced secret).
 func (v *VerifC17) AddSecret(s *api_v1.Secret) { v.lbc.secretStore.AddOrUpdateSecret(s) }
+
+// VerifC17AnnotationNames lists the Ingress annotations the validator knows (the keys of
+// annotationValidations, sorted), so that the harness can put adversarial values on each.
+func VerifC17AnnotationNames() []string { return append([]string(nil), annotationNames...) }
